@@ -112,7 +112,7 @@ class Ref:
         return [s for s, _ in items]
 
     def range_str(self):
-        if not self.cache:
+        if self.cache is None:      # the specification: computed once, even when every simplex is ignored
             self.cache = self.sorted_range(False)
         return "".join("%s:%s;" % (sstr(s), vstr(self.K[s])) for s in self.cache)
 
@@ -166,6 +166,8 @@ class Ref:
             mn = min(verts.values()) if verts else INF
             mx = max(verts.values()) if verts else -INF
             c = (max(verts) if verts else self.vmin) + 1
+            if c == -1:          # null_vertex() is reserved: the cone point skips it
+                c = 0
             sc = (lambda v: Fraction(0)) if (not verts or mx == mn) else (lambda v: (v - mn) / (mx - mn))
             new = {(c,): Fraction(-3)}
             for s in self.K:
@@ -307,7 +309,12 @@ def scenario_small(rng, optset, tier):
         ref.op(l.split())
 
     emit("range")
-    phases = rng.sample(["sets", "mfnd", "prune", "init1", "extend", "sets2", "prune2"], rng.randrange(2, 7))
+    phases0 = rng.sample(["sets", "mfnd", "prune", "init1", "extend", "sets2", "prune2"], rng.randrange(2, 7))
+    phases = []
+    for ph in phases0:
+        phases.append(ph)
+        if ph in ("sets", "sets2") and rng.random() < 0.7:
+            phases.append("mfnd")       # non-monotone assignment, then repair
     for ph in phases:
         if ph in ("sets", "sets2") and ref.K:
             keys = sorted(ref.K)
@@ -431,6 +438,7 @@ def boundary_cases():
         out.append(Case(o, 2, ["ins 0,1,2,3 1", "range", "set 0,1,2,3 0", "set 0 5", "range", "mfnd", "range", "mfnd", "range"], "boundary-revlex"))
         out.append(Case(o, 2, ["ins 0,1 1", "ins 1,2 inf", "ins 3 inf", "range", "init 1", "range", "init 0", "set 0 -inf", "range", "mfnd", "range",
                                "prune inf", "range", "prune 1", "range", "prune -inf", "range"], "boundary-infinite"))
+        out.append(Case(o, 2, ["ins 0,1 inf", "init 1", "range", "init 0", "range"], "boundary-all-ignored"))
         out.append(Case(o, 2, ["ins 0,1,2 0", "set 0 0", "set 1 1", "set 2 1/2", "extend", "range", "decodeall", "mfnd", "range"], "boundary-extend"))
         out.append(Case(o, 2, ["ins 0,1,2 7", "ins 3 7", "extend", "range", "decodeall"], "boundary-extend-scale0"))
         out.append(Case(o, 2, ["extend", "range", "decodeall"], "boundary-extend-empty"))
@@ -515,6 +523,14 @@ def check_case(res, c, obs, exp, refa, binname):
         if e.startswith("MODELDIFF"):
             res.violation("model:%s" % kind, "inside the model two sorting routines disagree: %s" % e, dict(case, ops=c.ops[:i + 1]), e, o)
             return False
+        if r is not None and r != e and kind in ("range", "init") and all_ignored_quirk(r, e):
+            # the one situation where the faithful model departs from the specification (C03_all_ignored_range_refuted)
+            if o == e:
+                res.violation("range:all-ignored-simplices-listed", "%s (%s build) line %d '%s': after initialize_filtration(true) on a complex "
+                              "whose simplices all have value +infinity the cache is empty, filtration_simplex_range() takes 'empty' for "
+                              "'not computed' and lists the ignored simplices" % (c.header(), binname, i, line),
+                              dict(case, ops=c.ops[:i + 1]), short(r), short(o))
+                return False
         if r is not None and r != e:
             # algorithm model and specification disagree: the theorems' hypotheses are not met or the model is wrong
             res.violation("model-vs-spec:%s" % kind, "%s (%s) line %d '%s': extracted algorithm model and specification differ"
@@ -526,6 +542,15 @@ def check_case(res, c, obs, exp, refa, binname):
                           dict(case, ops=c.ops[:i + 1]), short(e), short(o))
             return False
     return ok
+
+
+def all_ignored_quirk(r, e):
+    """specification: empty range; model: a range made only of simplices with value inf; same complex"""
+    rr, _, dr = r.partition(" # ")
+    re_, _, de = e.partition(" # ")
+    if dr != de or rr != "" or re_ == "":
+        return False
+    return all(v == ("inf",) for _, v in parse_list(re_)) and all(v == ("inf",) for _, v in parse_list(de))
 
 
 def short(s, n=1500):
